@@ -493,6 +493,34 @@ func (p *Prog) atomicWriteRule(r *Report) {
 		}
 		r.check(okk, rule, "rename is last and only after copy/close/chmod succeeded", p.pos(rnm.Pos()), fnName(wf), "dominated by nil errors of io.Copy, Close and Chmod", "the rename onto the destination is not dominated by successful "+why+"of the temp file: a short or unflushed temp file can replace the destination")
 	}
+	// success is only ever the rename's success: every return hands back the rename's result or a known non-nil error
+	{
+		nRet, leak := 0, ""
+		for _, rc := range returnCases(wf, 0) {
+			nRet++
+			v := rc.Vals[0]
+			fromRename := false
+			for _, rnm := range renames {
+				if v == ssa.Value(rnm) || derivesFromValue(v, rnm) {
+					fromRename = true
+				}
+			}
+			if fromRename {
+				continue
+			}
+			if k, isNil := errKnown(rc.Facts, []ssa.Value{v}); k && !isNil {
+				continue
+			}
+			if c, ok := v.(*ssa.Call); ok {
+				leak = "the result of " + calleeName(&c.Call)
+			} else if isNilConst(v) {
+				leak = "nil"
+			} else {
+				leak = v.String()
+			}
+		}
+		r.check(nRet > 0 && leak == "", rule, "WriteFile succeeds only through the rename", p.pos(wf.Pos()), fnName(wf), "every return is the rename's result or an error known to be non-nil", "fs.WriteFile can return "+leak+" without having gone through temp file + rename (a delegated or direct write to the final name, e.g. when it has just created the directory): a crash during that write leaves a partial file under the final name")
+	}
 	// nothing else opens/creates the destination
 	other := false
 	eachInstr(wf, false, func(_ *ssa.Function, i ssa.Instruction) {
@@ -705,6 +733,76 @@ func checkC35(p *Prog, r *Report) {
 		if n == 0 {
 			r.unresolved(rule, "buildTarget call in build.Build")
 		}
+	}
+	// (4b) what a failed build removes is what the up-to-date test looks at: all outputs, named groups included
+	{
+		okAcc := false
+		eachInstr(a.removeOutputs, false, func(_ *ssa.Function, i ssa.Instruction) {
+			if c, ok := i.(*ssa.Call); ok {
+				n := calleeName(&c.Call)
+				if n == "(*core.BuildTarget).Outputs" || n == "(*core.BuildTarget).FullOutputs" {
+					okAcc = true
+				}
+			}
+		})
+		r.check(okAcc, rule, "RemoveOutputs removes every output of the target", p.pos(a.removeOutputs.Pos()), fnName(a.removeOutputs), "iterates BuildTarget.Outputs() / FullOutputs(), the accessor the up-to-date test uses", "RemoveOutputs no longer iterates Outputs()/FullOutputs() (e.g. DeclaredOutputs(), which leaves out named output groups): after a build that failed hash verification those outputs stay in plz-out with their record, and the next build reuses them although they do not match the declared hashes")
+	}
+	// (4c) the record is written only behind a verification: inside calculateAndCheckRuleHash, or after it (or a
+	// function whose `true` means it ran it) succeeded
+	{
+		verifiedBy := func(fn *ssa.Function) bool {
+			// every constant-true return of fn lies behind a successful calc call
+			if fn == nil || fn.Signature.Results().Len() != 1 || typeString(fn.Signature.Results().At(0).Type()) != "bool" {
+				return false
+			}
+			n := 0
+			for _, rc := range returnCases(fn, 0) {
+				if b, isC := constBool(rc.Vals[0]); !isC || !b {
+					continue
+				}
+				// a "nothing to do" return before any artifact exists does not count against it, but a true return
+				// after artifacts were retrieved must be verified
+				okv := false
+				for _, ci := range callsInFn(fn, a.calc) {
+					if c, ok := ci.(*ssa.Call); ok {
+						if k, isNil := errKnown(rc.Facts, resultsOf(c, 1)); k && isNil {
+							okv = true
+						}
+					}
+				}
+				if okv {
+					n++
+				}
+			}
+			return n > 0
+		}
+		bad := ""
+		nSites := 0
+		for _, ci := range p.callers(a.writeRule) {
+			fn := ci.Parent()
+			if topFunc(fn) == a.calc {
+				continue
+			}
+			nSites++
+			just := false
+			for _, f := range factsAt(ci) {
+				// err == nil of a calc call
+				for _, cc := range callsInFn(fn, a.calc) {
+					if c, ok := cc.(*ssa.Call); ok {
+						if k, isNil := errKnown([]Fact{f}, resultsOf(c, 1)); k && isNil {
+							just = true
+						}
+					}
+				}
+				if c, ok := f.V.(*ssa.Call); ok && f.Val && verifiedBy(c.Call.StaticCallee()) {
+					just = true
+				}
+			}
+			if !just {
+				bad = fnName(fn) + " at " + p.pos(ci.Pos())
+			}
+		}
+		r.check(bad == "", "E7.record-only-after-verification", "writeRuleHash runs only behind a successful calculateAndCheckRuleHash", p.pos(a.writeRule.Pos()), fnName(a.writeRule), itoa(nSites)+" call site(s) outside calculateAndCheckRuleHash, each dominated by its success (directly or through retrieveArtifacts)", "the rule-hash record is written in "+bad+" without a successful calculateAndCheckRuleHash before it: outputs can be recorded as good (and cached) on a path that never compared them with the declared hashes, e.g. when a rebuild reproduces what was already in plz-out")
 	}
 	// (5)
 	rule = "E8.no-write-through"
